@@ -46,6 +46,9 @@ META["rule"] += (
 META["rule"] += (
     " " + 'Added after the third round: 40 % of the link attributes carry either sign; `FromIGraph` twice on one igraph object and on the embedded graph of a network; ClimateNetwork save -> Load with its three files.')
 
+META["rule"] += (
+    " " + 'Added after the fifth round: chains through two file formats with a change of node weights in between; half of the round trips leave the file format to be detected from the name; half of the attributed networks carry three link attributes, the second one is compared on every path.')
+
 FORMATS = ["graphml", "graphmlz", "pickle", "gml"]
 
 
